@@ -235,3 +235,34 @@ Definition find (glob : list entry) (cs : list change_in) : list entry :=
   merge glob (branch_entries cs).
 
 Notation mkE := Build_entry (only parsing).
+
+(** * The whole of GitBranchFinder.Find on a history: git.Changes (Model/GitChanges: log text, path unquoting, the fold,
+    the finalisation), then for every change `readRules` on Body.Before under Path.Before.Name and on Body.After under
+    Path.After.Name, matchEntries + the state switch, and the merge into the glob list.  git's answers, the include filter
+    and the parser ([parse]: body id and path name to entry list) are inputs.  Outside the model: the maxCommits limit,
+    `[skip ci]` commit messages, symlinks. *)
+From PintV Require Model.GitChanges.
+Module GCh := PintV.Model.GitChanges.
+
+Section History.
+  Variable type_at : string -> string -> GCh.ptype.
+  Variable allowed : string -> bool.
+  Variable is_dir : string -> bool.
+  Variable body_at : string -> string -> N.
+  Variable body_lines : N -> N.
+  Variable blame : string -> string -> list (string * Z * Z).
+  Variable parse : N -> string -> list entry.
+
+  Definition change_in_of (f : GCh.final) : change_in :=
+    {| ci_before := parse (GCh.f_body_before f) (GCh.ch_before (GCh.f_change f));
+       ci_after := parse (GCh.f_body_after f) (GCh.ch_after (GCh.f_change f));
+       ci_mod := GCh.f_mod f;
+       ci_after_lines := body_lines (GCh.f_body_after f) |}.
+
+  (** [None] = git.Changes panics on the log text *)
+  Definition classify (glob : list entry) (log_lines : list string) : option (list entry) :=
+    match GCh.changes_of_log type_at allowed is_dir body_at body_lines blame log_lines with
+    | Some fs => Some (find glob (map change_in_of fs))
+    | None => None
+    end.
+End History.
